@@ -10,4 +10,7 @@ func registerStreams(m map[string]Stream) {
 	m["mux"] = muxStream{}
 	m["tdbind"] = tdBindStream{}
 	m["c05"] = c05Stream{}
+	m["c06"] = c06Stream{}
+	m["c10"] = c10Stream{}
+	m["c08"] = c08Stream{}
 }
